@@ -113,6 +113,10 @@ type Exec struct {
 	logMu    chan struct{}
 }
 
+// EarlyTs is the number of time steps this execution took while some goroutine was enabled
+// (0 = virtual time only advanced when every goroutine was blocked).
+func (x *Exec) EarlyTs() int { return x.earlyTs }
+
 // Now is the virtual time since the start of the execution.
 func (x *Exec) Now() time.Duration { return time.Since(x.start) }
 
